@@ -46,6 +46,20 @@ class SymMap:
         return f"SymMap({self.name})"
 
 
+class SymMapView(SymMap):
+    """window onto a base SymMap: key k of the view is key offset + k of the base (shared storage)"""
+
+    def __init__(self, base, offset):
+        self.base = base
+        self.offset = offset
+        self.name = base.name + "@view"
+        self.dom = None
+
+    present = property(lambda self: self.base.present, lambda self, v: setattr(self.base, "present", v))
+    isnone = property(lambda self: self.base.isnone, lambda self, v: setattr(self.base, "isnone", v))
+    val = property(lambda self: self.base.val, lambda self, v: setattr(self.base, "val", v))
+
+
 class OptInt:
     """symbolic Optional[int]: ``isnone`` Bool term, ``val`` Int term"""
 
@@ -72,6 +86,45 @@ class SymList:
 
     def __repr__(self):
         return f"SymList({self.name})"
+
+
+class SymKeyDict:
+    """dict whose keys are (possibly symbolic) ints and whose values are arbitrary objects (e.g. SymList):
+    a finite list of entries with pairwise distinct keys; a lookup forks over which entry matches.
+    Abstraction of 'a table with arbitrarily many arrays' by the entries an operation can distinguish."""
+
+    def __init__(self, name, entries=None):
+        self.name = name
+        self.entries = list(entries or [])      # [(key (int|SInt), value)]
+
+    def copy_shallow(self):
+        return SymKeyDict(self.name + "'", list(self.entries))
+
+    def find(self, it, k):
+        k = _fold_opt(it, k)
+        if k is None or not isinstance(k, (int, SInt)) or isinstance(k, bool):
+            raise Unsupported(f"SymKeyDict key {k!r}")
+        for j, (kk, v) in enumerate(self.entries):
+            if it.truth(equal(it, k, kk)):
+                return j
+        return None
+
+    def __repr__(self):
+        return f"SymKeyDict({self.name},{len(self.entries)} entries)"
+
+
+class SymIntSet:
+    """set of ints as a z3 array Int -> Bool (mutable: add/remove rebind)"""
+
+    def __init__(self, name, arr=None):
+        self.name = name
+        self.arr = arr if arr is not None else z3.Array(f"{name}!s", z3.IntSort(), z3.BoolSort())
+
+    def snapshot(self):
+        return self.arr
+
+    def __repr__(self):
+        return f"SymIntSet({self.name})"
 
 
 # ---------------------------------------------------------------- truthiness
@@ -265,6 +318,13 @@ def contains(it, c, x):
         return _disj(it, [equal(it, x, k) for k in c])
     if isinstance(c, SymSet):
         return c.contains(it, x)
+    if isinstance(c, SymIntSet):
+        x = _fold_opt(it, x)
+        if x is None or not isinstance(x, (int, SInt)):
+            return False
+        return mk_bool(z3.Select(c.arr, lift_int(x)))
+    if isinstance(c, SymKeyDict):
+        return c.find(it, x) is not None
     if isinstance(c, SegStr):
         return c.contains(it, x)
     if has_sym(x):
@@ -575,12 +635,15 @@ def list_iadd(it, cur, val):
 def _key(it, m, k):
     k = _fold_opt(it, k)
     if isinstance(k, SEnum):
-        return k.t
-    if isinstance(k, enum.Enum):
-        return z3.IntVal(k.value)
-    if isinstance(k, (SInt, int)) and not isinstance(k, bool):
-        return lift_int(k)
-    raise Unsupported(f"SymMap key {k!r}")
+        t = k.t
+    elif isinstance(k, enum.Enum):
+        t = z3.IntVal(k.value)
+    elif isinstance(k, (SInt, int)) and not isinstance(k, bool):
+        t = lift_int(k)
+    else:
+        raise Unsupported(f"SymMap key {k!r}")
+    off = getattr(m, "offset", None)
+    return t if off is None else off + t
 
 
 def getitem(it, o, k):
@@ -591,6 +654,21 @@ def getitem(it, o, k):
         if not it.decide(z3.Select(o.present, kt)):
             raise _PyExc(KeyError(_conc_or_str(k)))
         return OptInt(z3.Select(o.isnone, kt), z3.Select(o.val, kt))
+    if isinstance(o, SymKeyDict):
+        j = o.find(it, k)
+        if j is None:
+            raise _PyExc(KeyError(_conc_or_str(k)))
+        return o.entries[j][1]
+    if isinstance(o, SymFamily) and callable(o.elem):
+        k = _fold_opt(it, k)
+        if isinstance(k, slice):
+            raise Unsupported("slice of SymFamily")
+        kt = lift_int(k)
+        if it.decide(z3.And(kt >= 0, kt < o.n)):
+            return o.elem(kt)
+        if it.decide(z3.And(kt < 0, kt >= -o.n)):
+            return o.elem(kt + o.n)
+        raise _PyExc(IndexError("list index out of range"))
     if isinstance(o, SymList):
         if isinstance(k, slice):
             return symlist_slice(it, o, k)
@@ -656,6 +734,13 @@ def _conc_or_str(k):
 
 
 def setitem(it, o, k, v):
+    if isinstance(o, SymKeyDict):
+        j = o.find(it, k)
+        if j is None:
+            o.entries.append((_fold_opt(it, k), v))
+        else:
+            o.entries[j] = (o.entries[j][0], v)
+        return True
     if isinstance(o, SymMap):
         kt = _key(it, o, k)
         isn, val = _optparts(it, v)
@@ -725,6 +810,12 @@ def _optparts(it, v):
 
 
 def delitem(it, o, k):
+    if isinstance(o, SymKeyDict):
+        j = o.find(it, k)
+        if j is None:
+            raise _PyExc(KeyError(_conc_or_str(k)))
+        o.entries.pop(j)
+        return True
     if isinstance(o, SymMap):
         kt = _key(it, o, k)
         if not it.decide(z3.Select(o.present, kt)):
@@ -894,6 +985,15 @@ def str_concat(it, parts):
     return s
 
 
+def keep_args(exc, args):
+    """remember the (possibly symbolic) constructor arguments of an interpreted exception"""
+    try:
+        exc._pyvc_args = tuple(args)
+    except Exception:
+        pass
+    return exc
+
+
 def concretize_msg(v):
     """exception messages may contain symbolic pieces; they are not part of any contract"""
     if isinstance(v, SegStr):
@@ -962,8 +1062,12 @@ def getattr_model(it, o, name):
         if o2 is None:
             raise _PyExc(AttributeError(f"'NoneType' object has no attribute '{name}'"))
         return sym_getattr(it, o2, name) if isinstance(o2, Sym) else it.getattr(o2, name)
-    if isinstance(o, (SymMap, SymList, SymSet, SegStr)):
-        f = _METHODS.get((type(o), name))
+    if isinstance(o, (SymMap, SymList, SymSet, SegStr, SymKeyDict, SymIntSet)):
+        f = None
+        for k in type(o).__mro__:
+            f = _METHODS.get((k, name))
+            if f is not None:
+                break
         if f is None:
             raise Unsupported(f"{type(o).__name__}.{name}")
         return BoundModel(f, o)
@@ -1147,7 +1251,41 @@ class SymFamily:
         self.elem = elem
 
 
+def _skd_get(it, d, k, default=None):
+    j = d.find(it, k)
+    return default if j is None else d.entries[j][1]
+
+
+def _skd_pop(it, d, k, *default):
+    j = d.find(it, k)
+    if j is None:
+        if default:
+            return default[0]
+        raise _PyExc(KeyError(_conc_or_str(k)))
+    return d.entries.pop(j)[1]
+
+
+def _sis_add(it, s, x):
+    s.arr = z3.Store(s.arr, lift_int(_fold_opt(it, x)), z3.BoolVal(True))
+
+
+def _sis_remove(it, s, x):
+    xt = lift_int(_fold_opt(it, x))
+    if not it.decide(z3.Select(s.arr, xt)):
+        raise _PyExc(KeyError(_conc_or_str(x)))
+    s.arr = z3.Store(s.arr, xt, z3.BoolVal(False))
+
+
+def _sis_discard(it, s, x):
+    s.arr = z3.Store(s.arr, lift_int(_fold_opt(it, x)), z3.BoolVal(False))
+
+
 _METHODS = {
+    (SymKeyDict, "get"): _skd_get,
+    (SymKeyDict, "pop"): _skd_pop,
+    (SymIntSet, "add"): _sis_add,
+    (SymIntSet, "remove"): _sis_remove,
+    (SymIntSet, "discard"): _sis_discard,
     (SymMap, "get"): _symmap_get,
     (SymMap, "pop"): _symmap_pop,
     (SymSet, "add"): _symset_add,
@@ -1249,8 +1387,10 @@ def _isinstance(it, o, c):
         return c in (bytes, object)
     if isinstance(o, SegStr):
         return c in (str, object)
-    if isinstance(o, (SymMap,)):
+    if isinstance(o, (SymMap, SymKeyDict)):
         return c in (dict, object)
+    if isinstance(o, SymIntSet):
+        return c in (set, object)
     if isinstance(o, (SymList, SymFamily)):
         return c in (list, object)
     if isinstance(o, SymSet):
@@ -1329,6 +1469,17 @@ def _int(it, *a):
     if isinstance(v, SEnum):
         raise _PyExc(TypeError("int() argument must be a string, a bytes-like object or a real number, not enum"))
     return it.native(int, a, {})
+
+
+def _float(it, *a):
+    if not a:
+        return 0.0
+    v = _fold_opt(it, a[0])
+    if isinstance(v, SReal):
+        return v
+    if isinstance(v, (SInt, SBool)):
+        return SReal(z3.ToReal(lift_int(v)))
+    return it.native(float, a, {})
 
 
 def _bool(it, *a):
@@ -1487,8 +1638,10 @@ def _type(it, *a):
         return bytes
     if isinstance(o, SegStr):
         return str
-    if isinstance(o, SymMap):
+    if isinstance(o, (SymMap, SymKeyDict)):
         return dict
+    if isinstance(o, SymIntSet):
+        return set
     if isinstance(o, (SymList, SymFamily)):
         return list
     if isinstance(o, SymSet):
@@ -1611,7 +1764,7 @@ class SymScalar:
 
 
 _BUILTINS = {
-    isinstance: _isinstance_b, issubclass: _issubclass, len: _len, int: _int, bool: _bool, str: _str, bytes: _bytes,
+    isinstance: _isinstance_b, issubclass: _issubclass, len: _len, int: _int, float: _float, bool: _bool, str: _str, bytes: _bytes,
     tuple: _tuple, list: _list, set: _set, dict: _dict, all: _all, any: _any, sum: _sum, min: _minmax("min"),
     max: _minmax("max"), abs: _abs, enumerate: _enumerate, zip: _zip, range: _range, type: _type,
     getattr: _getattr, hasattr: _hasattr, setattr: _setattr, next: _next, iter: _iter, sorted: _sorted,
@@ -1668,7 +1821,7 @@ def iterate(it, v):
         return iter(v.vals)
     if isinstance(v, SymStructArray):
         return iter(v.elems)
-    if isinstance(v, (SymMap, SymList, SymFamily, SymRange, SymBytesFn, SymSet)):
+    if isinstance(v, (SymMap, SymList, SymFamily, SymRange, SymBytesFn, SymSet, SymKeyDict, SymIntSet)):
         raise Unsupported(f"iteration over {type(v).__name__} (needs a loop contract)")
     if isinstance(v, SegStr):
         from . import segstr
@@ -1695,9 +1848,37 @@ def loop_hook(it, st, sc):
         k = node_ordinal(sc.fn_node, st, (ast.For, ast.While))
         f = h.get((sc.fn_qual, k))
         if f is not None:
-            f(it, st, sc)
+            if f(it, st, sc) is NotImplemented:
+                return NotImplemented
             return True
     return NotImplemented
+
+
+def foreach_generic_element(it, st, sc):
+    """loop contract for ``for x in <SymList>: <pure body>``: the body is executed once on a generic element
+    (fresh index inside the list); it may raise, it must not be relied on for effects.  Falls back to the
+    ordinary loop when the iterable is concrete."""
+    src = it.ev(st.iter, sc)
+    if not isinstance(src, SymList):
+        itr = it.iterate(src)
+        from .interp import _Break, _Continue
+        for x in itr:
+            it.assign(st.target, x, sc)
+            try:
+                it.exec_block(st.body, sc)
+            except _Break:
+                return True
+            except _Continue:
+                continue
+        it.exec_block(st.orelse, sc)
+        return True
+    it.fresh_ctr += 1
+    i = z3.Int(f"elem!{it.fresh_ctr}")
+    if it.decide(src.length > 0):
+        it.pc.append(z3.And(i >= 0, i < src.length))
+        it.assign(st.target, OptInt(z3.Select(src.isnone, i), z3.Select(src.val, i)), sc)
+        it.exec_block(st.body, sc)
+    return True
 
 
 def comp_hook(it, e, sc):
